@@ -22,7 +22,7 @@ BASE_ORG = 0x2000
 LOW_ORG = 1                      # second base origin: the bottom of memory, where label-n can fall below 0
 LOW_SHIFTS = [-1, 1, 0x4F]
 RENAMES = [["Q", "ZZ9", "LOOP1", "a1"], ["SU", "XS", "PCX", "DPY"], ["XS", "SU", "a1", "Q"], ["PCRL", "AB", "DD", "CCX"]]
-FORMATS = ["space1", "tabs", "space8", "nocomment", "comment.x", "comment.hostile", "mnem.lower", "mnem.mixed", "trailing.ws"]
+FORMATS = ["space1", "tabs", "space8", "nocomment", "comment.x", "comment.hostile", "comment.wide", "mnem.lower", "mnem.mixed", "trailing.ws"]
 ABS_TAGS = {"ext.lbl", "ext.lbl.p", "ext.lbl+1", "imm.lbl", "imm.lbl.p", "extind.lbl", "idx.lbl", "idx.lbl.p", "ind.lbl", "imm.lbl+1",
             "idx.lbl+1", "extind.lbl+1"}
 LABEL_RE = re.compile(r"\bL(\d)\b")
@@ -126,6 +126,8 @@ def reformat(line, how):
         s = "{} {} {} ; x".format(label, mnem, op)
     elif how == "comment.hostile":
         s = "{} {} {} ; {}".format(label, mnem, op, ',X "q" ; #$ [L0,PCR] +1')
+    elif how == "comment.wide":
+        s = "{} {} {} ; {}".format(label, mnem, op, "caf\u00e9 \u2014 \u201cquoted\u201d \u2192 \u20ac \u65e5\u672c")
     elif how == "mnem.lower":
         s = "{} {} {} ; {}".format(label, mnem.lower(), op, cm)
     elif how == "mnem.mixed":
